@@ -241,6 +241,7 @@ FALLBACK = {
                  ("multi_logs", ["C03"], "see multi_state"),
                  ("bar_frames", ["C05"], "400 ordinary updates paint at most 20 + rate*T + 1 frames (6 position/length pairs x 2 rates)"),
                  ("bar_hidden", ["C06"], "getters of a hidden bar vs a visible bar after 2 operations + 6 finishing / reset variants: 726 histories"),
+                 ("tracker_ticks", ["C11"], "a custom tracker's tick / reset log after each of up to 4 public operations out of 12 (inc, tick, set_message, set_prefix, length setters, set_position, reset, finish), hidden and visible bar: 55296 states"),
                  ("io_fail_bar", ["C18"], "every ProgressBar call under a terminal failing after 0 / 1 / 3 / 8 / 20 operations"),
                  ("io_fail_state", ["C18"], "MultiProgress::println / clear report the error (3 histories incl. a reaped dropped bar); getters after every pair of 10 operations equal those on a working terminal")],
     "draw_to_term": [("bar_screen", ["C01", "C03", "C19"], "as above (wrapping messages and printed lines exercise the row accounting)"),
@@ -257,7 +258,7 @@ FALLBACK = {
                      ("pos_arith", ["C07", "C04", "C05"], "inc / dec wrap, inc_length / dec_length saturate, finish variants vs position: 5 x 5 boundary values"),
                      ("pos_history", ["C07"], "position() / length() against the history-defined model after each of up to 4 operations out of 15 (inc, dec, set_position, set_length, inc_length, dec_length, unset_length, reset, finish, abandon with boundary arguments), hidden and visible bar: 135000 states"),
                      ("bar_reuse", ["C04", "C17"], "finish behaviour at the second completion of a reused bar"),
-                     ("est_laws", ["C09"], "see c09_estimator")],
+                     ("est_laws", ["C09"], "see c09_estimator"), ("tracker_ticks", ["C11"], "see bar_draw")],
     "pb_glue": [("pos_arith", ["C07", "C05"], "see c07_position"), ("pos_history", ["C07"], "see c07_position"), ("bar_frames", ["C05"], "see bar_draw")],
     "c17_adaptors": [("iter_adaptors", ["C17"], "external / reverse / internal iteration (8 modes x 3 lengths, second handle on the bar), Read with 5 chunk scripts x 3 buffer sizes incl. errors, read_exact, read_to_string, interleaved fill_buf / consume, 9 seeks x 2 bar offsets, Write / write_vectored with 4 chunk scripts")],
     "c13_format_bar": [("bar_cells", ["C13"], "{bar:N} geometry for 6 widths x 9 lengths (up to 2^24) x 8 positions on the real f32 code")],
@@ -273,7 +274,7 @@ FALLBACK = {
     "c10_template": [("template_fields", ["C10", "C12"], "width / alignment / truncation options of a placeholder reach the renderer as written: 14 templates"),
                      ("template_total", ["C10"], "parser totality on generated strings up to length 6 over the grammar alphabet"),
                      ("template_order", ["C10"], "literal order / one line per template line on generated templates")],
-    "format_state": [("render_keys", ["C11"], "every documented key against the getters through the public formatters, 9 position/length pairs x 3 statuses x 4 tick counts; custom key shadowing"),
+    "format_state": [("tracker_ticks", ["C11"], "see bar_draw"), ("render_keys", ["C11"], "every documented key against the getters through the public formatters, 9 position/length pairs x 3 statuses x 4 tick counts; custom key shadowing"),
                      ("render_wide", ["C12", "C13", "C11"], "lines with wide_bar / wide_msg fill exactly the terminal width (4 widths x 7 templates)"),
                      ("render_lines", ["C10", "C11", "C01"], "frame line structure for 8 templates x 9 messages with embedded / trailing newlines")],
     "c12_padding": [("pad_field ascii", ["C12"], "padding / truncation on printable ASCII, widths 0..12"),
